@@ -110,6 +110,13 @@ claim("C12", "exploration",
       "Trusted: the model in incrate/c12_lease.rs; the virtual-instant hook replaces the three Instant::now() calls of discovery_db.rs. ParticipantLost status events and the unmatching that follows are covered by C11.",
       "DESIGN.md section 2, C12")
 
+claim("C15", "exploration",
+      "property-based testing: round trip of generated discovery values in both PL_CDR byte orders, plus metamorphic relations on the wire form (foreign parameters inserted, order permuted, optional parameter deleted => documented default) using an independent parameter-list splitter; parse/re-serialise stability on mutated bytes",
+      "Generated values of the four discovery types (every optional field independently present/absent, 0-3 locators of several kinds per list, strings of every alignment, all QoS enum values and boundary durations) are serialised with to_pl_cdr_bytes (LE and BE), walked by an independent parameter-list splitter, and parsed back (equality modulo receive timestamps). "
+      "Then one metamorphic variant per case: 1-5 unknown standard / vendor-specific / must-understand parameters inserted anywhere (value must be unchanged; only must-understand ones may be rejected), order permuted (same value), one optional PID deleted (value = original with that field at its default). ParticipantMessageData (CDR LE/BE) and QosPolicies (parameter list) round trips; mutated parameter values must parse->serialise->parse stably.",
+      "Trusted: the default table in incrate/c15_discovery_wire.rs (from RTPS 2.5 section 9.6.3.2 and the code's documented representation: absent lease / QoS policy = None). Security-specific parameters are out of the default build's domain.",
+      "DESIGN.md section 2, C15")
+
 NOT_YET = {
 }
 
